@@ -30,6 +30,10 @@ type C14Case struct {
 	Fold   bool      `json:"fold,omitempty"` // closures mode, Stack target: the case-folding option is on (the operator word renders lower-case; nothing else may change)
 	Expr   int       `json:"expr,omitempty"` // Condition target: 0 leaf expression; 1 a Stack; 2 a Stack with its own rejecting validity closure; 3 a Stack with rejecting validity+equality closures and a presentation closure
 	Steps  []C14Step `json:"steps"`
+	// closures mode: presentation options of the receiver (and its comparison partners), all of which concern the
+	// BUILT-IN rendering only: bit 0 parenthetical, bit 1 no-padding, bit 2 encapsulation, bit 3 no-nesting,
+	// bit 4 (stacks) lead-once. An installed presentation closure's result is returned as it is.
+	Opts int `json:"opts,omitempty"`
 }
 
 // c14Val: tags 0..7 are strings/ints; 8 is a native Stack, 9 a Stack alias (fresh instance per call, ID = its tag).
@@ -272,8 +276,25 @@ func runC14Closures(c C14Case) (st Stats, err error) {
 			// closure decides is the receiver's business alone
 			twin.SetEqualityPolicy(func(any, any) error { return fmt.Errorf("the argument's closure says: different") })
 			other.SetEqualityPolicy(func(any, any) error { return nil })
+			for _, x := range []stackage.Condition{cd, twin, other} {
+				if c.Opts&1 != 0 {
+					x.Paren(true)
+				}
+				if c.Opts&2 != 0 {
+					x.NoPadding(true)
+				}
+				if c.Opts&4 != 0 {
+					x.Encap(`"`)
+				}
+				if c.Opts&8 != 0 {
+					x.SetNoNesting(true)
+				}
+			}
 		}); p != "" {
 			return st, violf("setup/panic", "%s", p)
+		}
+		if c.Opts != 0 {
+			st.Class("receiver-with-presentation-options")
 		}
 		if c.Expr > 0 {
 			st.Class(fmt.Sprintf("cond-expression-form-%d", c.Expr))
@@ -281,6 +302,7 @@ func runC14Closures(c C14Case) (st Stats, err error) {
 		// what the built-in behaviour does with a nested Stack that carries closures of its own is
 		// nobody's statement: with such an expression only the installed-closure clauses are asserted
 		builtinKnown := c.Expr <= 1
+		builtinStrKnown := builtinKnown && c.Opts == 0 // (the built-in spelling under options is C06's subject)
 		builtinStr, builtinExpr := "kw = v", any("v")
 		if c.Expr == 1 {
 			builtinStr = "kw = a OR b"
@@ -307,7 +329,7 @@ func runC14Closures(c C14Case) (st Stats, err error) {
 				// String
 				str := cd.String()
 				want := builtinStr
-				strKnown := builtinKnown
+				strKnown := builtinStrKnown
 				if cl := installed["presentation"]; cl != nil {
 					strKnown = true
 					want = presOut(cl.n)
@@ -455,6 +477,23 @@ func runC14Closures(c C14Case) (st Stats, err error) {
 			twin.SetFold(true)
 			other.SetFold(true)
 		}
+		for _, x := range []stackage.Stack{s, twin, other} {
+			if c.Opts&1 != 0 {
+				x.Paren(true)
+			}
+			if c.Opts&2 != 0 {
+				x.NoPadding(true)
+			}
+			if c.Opts&4 != 0 {
+				x.Encap(`"`)
+			}
+			if c.Opts&8 != 0 {
+				x.SetNoNesting(true)
+			}
+			if c.Opts&16 != 0 {
+				x.LeadOnce(true)
+			}
+		}
 		if c.Expr >= 2 {
 			// a nested Stack (and a Condition holding one) that carry rejecting closures of their own:
 			// the receiver's installed closures must still be the ones that decide
@@ -500,7 +539,7 @@ func runC14Closures(c C14Case) (st Stats, err error) {
 			}
 			str := s.String()
 			want := builtinString
-			strKnown := !nestedClosures
+			strKnown := !nestedClosures && c.Opts == 0
 			if cl := installed["presentation"]; cl != nil && c.Kind != "BASIC" {
 				strKnown = true
 				want = presOut(cl.n)
@@ -718,6 +757,12 @@ func genC14(t *rapid.T, tier Tier) C14Case {
 		c.Fold = false
 	} else if c.Fold = rapid.IntRange(0, 2).Draw(t, "fold") == 0; rapid.IntRange(0, 3).Draw(t, "nested-closures") == 0 {
 		c.Expr = rapid.IntRange(2, 3).Draw(t, "nestedform")
+	}
+	if rapid.IntRange(0, 2).Draw(t, "opts?") == 0 {
+		c.Opts = rapid.IntRange(1, 31).Draw(t, "opts")
+		if c.Expr >= 2 || c.Target == "stack" {
+			c.Opts &^= 8 // (nested closure bearers are pushed after the options are set; the built-in Marshal of a Stack row stores a nested Stack)
+		}
 	}
 	n := rapid.IntRange(1, 6).Draw(t, "nsteps")
 	for i := 0; i < n; i++ {
